@@ -204,6 +204,23 @@ def dom (b : Book) : Op → Bool
     | none => true
   | .setColumnsHidden _ _ _ _ => true
   | .setRowsHidden _ _ _ _ => true
+  | .moveRows _ _ _ _ => true
+
+/-- the three ways `move_rows_action` can end -/
+theorem moveRows_cases (b : Book) (s : Nat) (r n d : Int) :
+    moveRows b s r n d = ⟨b, none, none⟩ ∨ (∃ e, moveRows b s r n d = fail b e) ∨
+      (∃ b' nd, mMoveRows b s r n nd = .ok b' ∧
+        moveRows b s r n d = done b' [.moveRows s r n nd]) := by
+  unfold moveRows
+  split
+  · left; rfl
+  · split
+    · right; left; exact ⟨_, rfl⟩
+    · split
+      · right; left; exact ⟨_, rfl⟩
+      · split
+        · right; left; exact ⟨_, rfl⟩
+        · next b' hm => right; right; exact ⟨_, _, hm, rfl⟩
 
 /-! ### atomicity of every operation (C04) -/
 
@@ -398,7 +415,10 @@ theorem doOp_atomic (b : Book) (o : Op) (e : Err) (h : (doOp env b o).err = some
         · rw [h0]; rfl
         · exact rowsHiddenLoop_ok s hd _ _ _ _ sh hsh h1 h2
       rw [ofLoop_err_none this] at h; cases h
-
+  | moveRows s r n d =>
+    simp only [doOp] at h ⊢
+    rcases moveRows_cases b s r n d with h1 | ⟨e', h1⟩ | ⟨b', nd, _, h1⟩ <;>
+      rw [h1] at h ⊢ <;> simp_all [fail, done]
 
 /-! ### a successful call that records nothing changed nothing -/
 
@@ -475,6 +495,10 @@ theorem doOp_quiet (b : Book) (o : Op) (herr : (doOp env b o).err = none)
     split at hp
     · simp_all [fail]
     · simp only [ofLoop] at hp herr ⊢; split at hp <;> simp_all
+  | moveRows s r n d =>
+    simp only [doOp] at herr hp ⊢
+    rcases moveRows_cases b s r n d with h1 | ⟨e', h1⟩ | ⟨b', nd, _, h1⟩ <;>
+      rw [h1] at herr hp ⊢ <;> simp_all [fail, done]
 
 /-! ### single-diff operations: the recorded diff links the states before and after -/
 
@@ -692,6 +716,121 @@ theorem rowsHiddenLoop_chain (sheet : Nat) (h : Bool) (b0 : Book) :
       Bool.false_eq_true, if_false]
     exact rowsHiddenLoop_chain sheet h b0 n (c + 1) _ _ _ (getSheet_setSheet hs) (by omega)
       (by omega) (Chain.snoc hc (linked1_setRowHidden env hs hv))
+
+
+/-! ### row moves as permutations of the per-row view -/
+
+theorem rowSrc_inv (r d x : Int) : rowSrc r d (rowSrc (r + d) (-d) x) = x := by
+  unfold rowSrc
+  repeat' split
+  all_goals omega
+
+theorem moveRow1_inv (f : Int → RowView) (r d : Int) :
+    moveRow1 (moveRow1 f r d) (r + d) (-d) = f := by
+  funext x
+  simp only [moveRow1, rowSrc_inv]
+
+/-- moving down: the last single move is the one of the first row -/
+theorem loop_down_last (d : Int) (hd : 0 < d) : ∀ (n : Nat) (row : Int) (f : Int → RowView),
+    moveRowsLoop d (n + 1) row f = moveRow1 (moveRowsLoop d n (row + 1) f) row d
+  | 0, row, f => by simp [moveRowsLoop, hd]
+  | n + 1, row, f => by
+    have ih := loop_down_last d hd n row (moveRow1 f (row + (n + 1 : Nat)) d)
+    have e : moveRowsLoop d (n + 2) row f
+        = moveRowsLoop d (n + 1) row (moveRow1 f (row + (n + 1 : Nat)) d) := by
+      simp [moveRowsLoop, hd]
+    rw [e, ih]
+    have e2 : moveRowsLoop d (n + 1) (row + 1) f
+        = moveRowsLoop d n (row + 1) (moveRow1 f (row + 1 + (n : Nat)) d) := by
+      simp [moveRowsLoop, hd]
+    rw [e2]
+    have : row + ((n + 1 : Nat) : Int) = row + 1 + (n : Nat) := by omega
+    rw [this]
+
+/-- moving up: the last single move is the one of the last row -/
+theorem loop_up_last (d : Int) (hd : ¬ 0 < d) : ∀ (n : Nat) (row : Int) (f : Int → RowView),
+    moveRowsLoop d (n + 1) row f = moveRow1 (moveRowsLoop d n row f) (row + n) d
+  | 0, row, f => by simp [moveRowsLoop, hd]
+  | n + 1, row, f => by
+    have ih := loop_up_last d hd n (row + 1) (moveRow1 f row d)
+    have e : moveRowsLoop d (n + 2) row f = moveRowsLoop d (n + 1) (row + 1) (moveRow1 f row d) := by
+      simp [moveRowsLoop, hd]
+    rw [e, ih]
+    have e2 : moveRowsLoop d (n + 1) row f = moveRowsLoop d n (row + 1) (moveRow1 f row d) := by
+      simp [moveRowsLoop, hd]
+    rw [e2]
+    have : row + 1 + (n : Nat) = row + ((n + 1 : Nat) : Int) := by omega
+    rw [this]
+
+/-- a block moved by `d` and then, from its new place, by `-d` is back where it was -/
+theorem moveRowsLoop_inv (d : Int) (hd0 : d ≠ 0) : ∀ (n : Nat) (row : Int) (f : Int → RowView),
+    moveRowsLoop (-d) n (row + d) (moveRowsLoop d n row f) = f
+  | 0, _, _ => rfl
+  | n + 1, row, f => by
+    by_cases hd : 0 < d
+    · -- forward: down (last move = first row); backward: up, first move = row + d
+      have hneg : ¬ 0 < -d := by omega
+      rw [loop_down_last d hd n row f]
+      have e : moveRowsLoop (-d) (n + 1) (row + d) (moveRow1 (moveRowsLoop d n (row + 1) f) row d)
+          = moveRowsLoop (-d) n (row + d + 1)
+              (moveRow1 (moveRow1 (moveRowsLoop d n (row + 1) f) row d) (row + d) (-d)) := by
+        rw [moveRowsLoop]; simp only [hneg, if_false]
+      rw [e, moveRow1_inv]
+      have : row + d + 1 = (row + 1) + d := by omega
+      rw [this]
+      exact moveRowsLoop_inv d hd0 n (row + 1) f
+    · -- forward: up (last move = last row); backward: down, first move = row + d + n
+      have hpos : 0 < -d := by omega
+      rw [loop_up_last d hd n row f]
+      have e : moveRowsLoop (-d) (n + 1) (row + d) (moveRow1 (moveRowsLoop d n row f) (row + n) d)
+          = moveRowsLoop (-d) n (row + d)
+              (moveRow1 (moveRow1 (moveRowsLoop d n row f) (row + n) d) (row + d + n) (-d)) := by
+        rw [moveRowsLoop]; simp only [hpos, if_true]
+      rw [e]
+      have : row + d + (n : Int) = (row + n) + d := by omega
+      rw [this, moveRow1_inv]
+      exact moveRowsLoop_inv d hd0 n row f
+
+theorem sheet_rows_roundtrip (s : Sheet) (g : Int → RowView) :
+    ({ ({ s with rowAt := g } : Sheet) with rowAt := s.rowAt } : Sheet) = s := by cases s; rfl
+
+/-- the recorded `MoveRows` diff links the states before and after the model-level move -/
+theorem linked1_moveRows {b b' : Book} {sheet : Nat} {row count nd : Int}
+    (h : mMoveRows b sheet row count nd = .ok b') :
+    Linked1 env (.moveRows sheet row count nd) b b' := by
+  refine ⟨?_, h⟩
+  simp only [back1]
+  unfold mMoveRows at h ⊢
+  by_cases h0 : count ≤ 0 ∨ nd = 0
+  · have h0' : count ≤ 0 ∨ -nd = 0 := by omega
+    simp only [h0, if_true] at h
+    injection h with h; subst h
+    simp only [h0', if_true]
+  · have h0' : ¬ (count ≤ 0 ∨ -nd = 0) := by omega
+    simp only [h0, if_false] at h
+    simp only [h0', if_false]
+    by_cases h1 : (!validRow (row + nd) || !validRow (row + count - 1 + nd)) = true
+    · simp [h1] at h
+    · simp only [h1] at h
+      by_cases h2 : (!validRow row || !validRow (row + count - 1)) = true
+      · simp [h2] at h
+      · simp only [h2] at h
+        have e1 : row + nd + -nd = row := by omega
+        have e2 : row + nd + count - 1 + -nd = row + count - 1 := by omega
+        have e3 : row + nd + count - 1 = row + count - 1 + nd := by omega
+        have e4 : row + count - 1 + nd + -nd = row + count - 1 := by omega
+        simp only [e1, e2, e3, e4, h2, h1]
+        cases hs : getSheet b sheet with
+        | error e => simp [hs] at h
+        | ok s =>
+          simp only [hs, Bool.false_eq_true, if_false] at h
+          injection h with h; subst h
+          simp only [getSheet_setSheet hs, Bool.false_eq_true, if_false]
+          have hnd : nd ≠ 0 := by omega
+          rw [setSheet_setSheet]
+          simp only [moveRowsLoop_inv nd hnd]
+          rw [sheet_rows_roundtrip]
+          exact congrArg _ (setSheet_same hs)
 
 
 /-! ### every operation of the domain records a chain from the state before to the state after -/
@@ -948,6 +1087,15 @@ theorem op_chain (b : Book) (o : Op) (ds : List Diff) (hd : dom env b o = true)
       split at hp
       · simp at hp
       · simp only [Option.some.injEq] at hp; subst hp; exact hch
+  | moveRows s r n d =>
+    simp only [doOp] at herr hp ⊢
+    rcases moveRows_cases b s r n d with h1 | ⟨e', h1⟩ | ⟨b', nd, hm, h1⟩
+    · rw [h1] at hp; simp at hp
+    · rw [h1] at herr; simp [fail] at herr
+    · rw [h1] at hp ⊢
+      simp only [done, Option.some.injEq] at hp ⊢
+      subst hp
+      exact Chain.single env (linked1_moveRows env hm)
 
 /-- the concrete model satisfies the laws of the generic machine on `dom` (`obs` = identity) -/
 theorem laws : Laws (sys env) (fun w => w) (fun b o => dom env b o = true) where
